@@ -4,11 +4,15 @@ from . import replies
 NOTE = {
     "C07": "reply machine model-checked over the compiled tables; every (handler name, outcome, events, data class) reply incl. unknown ids "
            "dispatched through sv::dispatch_reply, the reply entry point and the multitest impl; routing, context, second parameter and "
-           "pass-through arms judged by TLC; liveness (`Dispatched`) checked under fairness",
+           "pass-through arms judged by TLC; liveness (`Dispatched`) checked under fairness; the chain machine (Chain.tla: safety invariants and "
+           "liveness `TxEnds`) model-checked over the same tables and every (handler name x target kind x target behaviour) transaction run "
+           "on a cw-multi-test chain with each compiled program as the caller, validated by Trace_Chain",
     "C08": "ids, reply_on, kept message/gas limit and payload encoding of every builder (5 receiver classes x 2 value sets) and the end-to-end "
-           "delivery of payload values to the handler judged by TLC",
+           "delivery of payload values to the handler judged by TLC; on the chain corpus the trigger is consumed by the chain and the payload comes "
+           "back through it",
     "C09": "7 data modes x 6 data classes (absent / execute envelope / instantiate envelope / empty envelope / garbage / bad JSON) through the "
-           "real dispatcher; extraction outcome and decoded value judged by TLC against Reply!Extract",
+           "real dispatcher; extraction outcome and decoded value judged by TLC against Reply!Extract; on the chain corpus the data arrives in the "
+           "envelopes the chain makes (incl. data longer than 127 bytes, present-but-empty data, instantiate responses)",
 }
 
 
